@@ -159,6 +159,8 @@ pub struct Ctx {
     pub frozen: bool,
     /// the explicit case currently being executed (for panics)
     pub current: Option<Value>,
+    /// free-form (hash, identity) pairs collected by a property for a cross-shard merge
+    pub bag: Vec<(u64, u64)>,
 }
 
 impl Ctx {
@@ -180,6 +182,7 @@ impl Ctx {
             extra: BTreeMap::new(),
             frozen: false,
             current: None,
+            bag: vec![],
         }
     }
     pub fn eval(&mut self) {
